@@ -3,7 +3,7 @@ import ast
 import unicodedata
 
 from .util import *
-from ..sym import Template
+from ..sym import Template, Bound, mkphi
 
 EXPLANATION = (
     "uni2tex is analysed as a string transducer.  Totality: the text is consumed by `for char in text` (or every "
@@ -187,61 +187,165 @@ def _tparts(v):
     return [("hole", key(v))]
 
 
+def _find_table(P, f):
+    """The accent table: a dict literal with integer keys, local to uni2tex or at module level of tex.py.
+    Returns (ast.Dict, name, is_global)."""
+    for nd in walk_local(f.node):
+        if isinstance(nd, ast.Assign) and isinstance(nd.value, ast.Dict) and nd.value.keys and all(isinstance(k, ast.Constant) and isinstance(k.value, int) for k in nd.value.keys) and isinstance(nd.targets[0], ast.Name):
+            return nd.value, nd.targets[0].id, False
+    for stn in f.module.tree.body:
+        if isinstance(stn, ast.Assign) and isinstance(stn.value, ast.Dict) and stn.value.keys and all(isinstance(k, ast.Constant) and isinstance(k.value, int) for k in stn.value.keys) and isinstance(stn.targets[0], ast.Name):
+            return stn.value, stn.targets[0].id, True
+    return None, None, False
+
+
+class _Model:
+    pass
+
+
+def _model(ctx):
+    """uni2tex as a string transducer: the loop body value-numbered for an arbitrary character `ch` with symbolic
+    accumulators.  Accumulators are string variables that start as "" and list variables that start as [] and are only
+    appended to and finally joined with the empty string (`parts.append(x)` is then `parts += x`)."""
+    def build():
+        P = ctx.P
+        M = _Model()
+        f = P.func(U)
+        M.f = f
+        loops = _loop(f)
+        if len(loops) != 1 or not isinstance(loops[0], ast.For):
+            raise Undecided("uni2tex is not a single for-loop over the characters; the string-flow recogniser does not apply")
+        lp = loops[0]
+        M.lp = lp
+        tbl, tname, tglobal = _find_table(P, f)
+        M.table = tbl
+        listacc = {}
+
+        def hook(fv, args, kwargs, node, st_):
+            # list accumulators
+            if isinstance(fv, Bound) and isinstance(fv.recv, Opaque) and fv.recv.text in listacc and isinstance(node, ast.Call) and isinstance(node.func, ast.Attribute) and isinstance(node.func.value, ast.Name):
+                if fv.name == "append" and len(args) == 1:
+                    cur = st_.env.lookup(node.func.value.id)
+                    st_.env.assign(node.func.value.id, ev._mk_template([("hole", cur, "%s"), ("hole", args[0], "%s")]))
+                    return NONE
+                if fv.name == "extend" and len(args) == 1 and isinstance(args[0], Seq):
+                    cur = st_.env.lookup(node.func.value.id)
+                    st_.env.assign(node.func.value.id, ev._mk_template([("hole", cur, "%s")] + [("hole", x, "%s") for x in args[0].items]))
+                    return NONE
+            # "".join(acc)
+            if isinstance(fv, Bound) and fv.name == "join" and isinstance(fv.recv, Const) and fv.recv.v == "" and len(args) == 1:
+                a0 = args[0]
+                if isinstance(a0, (Template, Opaque)) and _is_acc_value(a0, listacc):
+                    return a0
+            # table.get(k[, default])
+            isget = (isinstance(fv, Bound) and fv.name == "get" and isinstance(fv.recv, Opaque) and fv.recv.text == "ACCENTS") or (isinstance(fv, Opaque) and fv.text == "ACCENTS.get")
+            if isget and 1 <= len(args) <= 2:
+                dflt = args[1] if len(args) == 2 else NONE
+                return mkphi(Cond(("cmp", "in", args[0], Opaque("ACCENTS", kind="obj"))), Opaque("ACCENTS[%s]" % key(args[0]), kind="str"), dflt)
+            return None
+
+        ev = new_eval(P, on_call=hook)
+        M.ev = ev
+        if tglobal:
+            ev.module_env(f.module.name).vars[tname] = Opaque("ACCENTS", kind="obj")
+        st = ev.new_state(f, {f.params[0]: Opaque("TEXT", kind="str")})
+        pre = f.node.body[: f.node.body.index(lp)]
+        post = f.node.body[f.node.body.index(lp) + 1:]
+        ev.block(pre, st, [])
+        svars = [k for k, v in st.env.vars.items() if isinstance(v, Const) and v.v == ""]
+        lvars = []
+        for k, v in st.env.vars.items():
+            if isinstance(v, Seq) and v.kind == "list" and not v.items:
+                uses_ok = True
+                for nd in walk_local(f.node):
+                    if isinstance(nd, ast.Name) and nd.id == k and isinstance(nd.ctx, ast.Load):
+                        par = getattr(nd, "_parent", None)
+                        if isinstance(par, ast.Attribute) and par.attr in ("append", "extend"):
+                            continue
+                        if isinstance(par, ast.Call) and isinstance(par.func, ast.Attribute) and par.func.attr == "join" and isinstance(par.func.value, ast.Constant) and par.func.value.value == "":
+                            continue
+                        uses_ok = False
+                if uses_ok:
+                    lvars.append(k)
+        M.acc = svars + lvars
+        for k in M.acc:
+            st.env.vars[k] = Opaque(k.upper(), kind="str")
+        for k in lvars:
+            listacc[k.upper()] = k
+        if tbl is not None and not tglobal:
+            st.env.vars[tname] = Opaque("ACCENTS", kind="obj")
+        # what the function returns, as a function of the accumulators at loop exit
+        st_post = st.fork() if hasattr(st, "fork") else st
+        r = ev.block(post, st_post, [])
+        M.rv = r.value if r is not None else None
+        M.nrets = len([n for n in post if isinstance(n, ast.Return)])
+        order = [p[1] for p in _tparts(M.rv) if p[0] == "hole"] if M.rv is not None else []
+        M.order = order
+        names = [k.upper() for k in M.acc]
+        M.names = names
+        M.OUTN = order[0] if order else (names[0] if names else None)
+        M.CLN = order[1] if len(order) > 1 else None
+        M.outv = next((k for k in M.acc if k.upper() == M.OUTN), None)
+        M.clv = next((k for k in M.acc if k.upper() == M.CLN), None)
+        M.itv = key(ev.expr(lp.iter, st))
+        ch = Opaque("ch", kind="str")
+        if isinstance(lp.target, ast.Name):
+            st.env.vars[lp.target.id] = ch
+        else:
+            ev.bind(lp.target, Seq("tuple", [Opaque("i"), ch]), st)
+        ev.block(lp.body, st, [])
+        o2 = st.env.lookup(M.outv) if M.outv else Const("")
+        c2 = st.env.lookup(M.clv) if M.clv else Const("")
+        M.leaves = []
+        for path, leaf in leaves(lift(Seq("tuple", [o2, c2]))):
+            M.leaves.append((path, _path_facts(path), leaf.items[0], leaf.items[1]))
+        return M
+
+    return ctx.get("c19.model", build)
+
+
+def _is_acc_value(v, listacc):
+    if isinstance(v, Opaque):
+        return v.text in listacc
+    if isinstance(v, Template):
+        return any(p[0] == "hole" and isinstance(p[1], Opaque) and p[1].text in listacc for p in v.parts)
+    return False
+
+
+def _known_hole(h, M):
+    """Holes the recogniser understands: the accumulators, the character, accent look-ups and decomposition parts."""
+    return h in (M.OUTN, M.CLN, "ch") or h.startswith("ACCENTS[") or "unicodedata.decomposition(ch)" in h or "ord(ch)" in h
+
+
 @rule("C19.FLOW")
 def flow(ctx, R):
     P = ctx.P
     f = P.func(U)
-    loops = _loop(f)
-    if len(loops) != 1 or not isinstance(loops[0], ast.For):
-        R.undecided("C19.FLOW", U, where(f), "uni2tex is not a single for-loop over the characters; the string-flow recogniser does not apply")
+    try:
+        M = _model(ctx)
+    except Undecided as e:
+        R.undecided("C19.FLOW", U, where(f), str(e))
         return
-    lp = loops[0]
-    ev = new_eval(P)
-    st = ev.new_state(f, {f.params[0]: Opaque("TEXT", kind="str")})
-    pre = f.node.body[: f.node.body.index(lp)]
-    ev.block(pre, st, [])
-    # string state variables: initialised to ""
-    svars = [k for k, v in st.env.vars.items() if isinstance(v, Const) and v.v == ""]
-    rets = [n for n in f.node.body[f.node.body.index(lp) + 1:] if isinstance(n, ast.Return)]
-    R.check(len(svars) in (1, 2) and len(rets) == 1, "C19.FLOW", U + "|state", where(f), "output (and pending cluster) start empty", "uni2tex state variables: %s" % svars)
-    if not svars or len(rets) != 1:
+    lp = M.lp
+    R.check(len(M.acc) in (1, 2) and M.nrets == 1, "C19.FLOW", U + "|state", where(f), "output (and pending cluster) start empty", "uni2tex state variables: %s" % M.acc)
+    if not M.acc or M.nrets != 1:
         return
-    # return value: concatenation of the state variables, output first
-    for k in svars:
-        st.env.vars[k] = Opaque(k.upper(), kind="str")
-    rv = ev.expr(rets[0].value, st)
-    order = [p[1] for p in _tparts(rv) if p[0] == "hole"]
-    names = [k.upper() for k in svars]
-    R.check(sorted(order) == sorted(names) and not [p for p in _tparts(rv) if p[0] == "lit"], "C19.FLOW", U + "|result", where(f, rets[0]), "returns output + pending cluster", "uni2tex returns %s: the pending cluster (or the output) is dropped or decorated" % show(rv))
-    OUTN = order[0] if order else names[0]
-    CLN = order[1] if len(order) > 1 else None
-    outv = [k for k in svars if k.upper() == OUTN][0]
-    clv = [k for k in svars if k.upper() == CLN][0] if CLN else None
-    # loop body for an arbitrary character
-    acc_name = None
-    for k, v in st.env.vars.items():
-        if isinstance(v, DictV) and v.items and all(isinstance(x, (int,)) for x in v.items):
-            acc_name = k
-    if acc_name:
-        st.env.vars[acc_name] = Opaque("ACCENTS", kind="obj")
-    itv = key(ev.expr(lp.iter, st))
-    okit = itv in ("TEXT", "enumerate(TEXT)", "unicodedata.normalize('NFC', TEXT)", "unicodedata.normalize('NFD', TEXT)")
-    R.check(okit, "C19.FLOW", U + "|scans the text itself", where(f, lp), "the loop consumes the text as given (or a canonically equivalent normal form)", "the loop scans %s instead of the text as given: characters are changed before conversion (only canonical normalisation NFC/NFD preserves the text up to canonical equivalence)" % itv)
-    ch = Opaque("ch", kind="str")
-    if isinstance(lp.target, ast.Name):
-        st.env.vars[lp.target.id] = ch
-    else:
-        ev.bind(lp.target, Seq("tuple", [Opaque("i"), ch]), st)
-    ev.block(lp.body, st, [])
-    out2, cl2 = st.env.lookup(outv), (st.env.lookup(clv) if clv else Const(""))
+    rv = M.rv
+    OUTN, CLN = M.OUTN, M.CLN
+    R.check(sorted(M.order) == sorted(M.names) and not [p for p in _tparts(rv) if p[0] == "lit"], "C19.FLOW", U + "|result", where(f), "returns output + pending cluster", "uni2tex returns %s: the pending cluster (or the output) is dropped or decorated" % show(rv))
+    okit = M.itv in ("TEXT", "enumerate(TEXT)", "unicodedata.normalize('NFC', TEXT)", "unicodedata.normalize('NFD', TEXT)")
+    R.check(okit, "C19.FLOW", U + "|scans the text itself", where(f, lp), "the loop consumes the text as given (or a canonically equivalent normal form)", "the loop scans %s instead of the text as given: characters are changed before conversion (only canonical normalisation NFC/NFD preserves the text up to canonical equivalence)" % M.itv)
     n_leaves = 0
-    for path, leaf in leaves(lift(Seq("tuple", [out2, cl2]))):
+    for path, facts, o, c in M.leaves:
         n_leaves += 1
-        o, c = leaf.items
         parts = _tparts(o) + _tparts(c)
         holes = [p[1] for p in parts if p[0] == "hole"]
         conds = ["%s%s" % ("" if t else "not ", key(cnd)) for cnd, t in path]
         tag = " & ".join(conds)[:150]
+        unknown = [h for h in holes if not _known_hole(h, M)]
+        if unknown:
+            R.undecided("C19.FLOW", U + "|leaf: " + (tag or "unconditional"), where(f, lp), "the loop body builds the output from %s, which the string-flow recogniser does not understand" % unknown[:2])
+            continue
         ok_out = holes[:1] == [OUTN] and holes.count(OUTN) == 1
         ok_cl = CLN is None or holes.count(CLN) == 1
         nch = holes.count("ch")
@@ -290,41 +394,8 @@ def _path_facts(path):
 
 
 def _loop_leaves(ctx):
-    """Evaluate the loop body of uni2tex for an arbitrary character; yield (facts, out', cluster', names)."""
-    P = ctx.P
-    f = P.func(U)
-    loops = _loop(f)
-    if len(loops) != 1 or not isinstance(loops[0], ast.For):
-        raise Undecided("uni2tex is not a single for-loop over the characters")
-    lp = loops[0]
-    ev = new_eval(P)
-    st = ev.new_state(f, {f.params[0]: Opaque("TEXT", kind="str")})
-    ev.block(f.node.body[: f.node.body.index(lp)], st, [])
-    svars = [k for k, v in st.env.vars.items() if isinstance(v, Const) and v.v == ""]
-    rets = [n for n in f.node.body[f.node.body.index(lp) + 1:] if isinstance(n, ast.Return)]
-    for k in svars:
-        st.env.vars[k] = Opaque(k.upper(), kind="str")
-    rv = ev.expr(rets[0].value, st) if rets else None
-    order = [p[1] for p in _tparts(rv) if p[0] == "hole"] if rv is not None else []
-    for k, v in list(st.env.vars.items()):
-        if isinstance(v, DictV) and v.items and all(isinstance(x, int) for x in v.items):
-            st.env.vars[k] = Opaque("ACCENTS", kind="obj")
-    ch = Opaque("ch", kind="str")
-    if isinstance(lp.target, ast.Name):
-        st.env.vars[lp.target.id] = ch
-    else:
-        ev.bind(lp.target, Seq("tuple", [Opaque("i"), ch]), st)
-    ev.block(lp.body, st, [])
-    outn = order[0] if order else None
-    cln = order[1] if len(order) > 1 else None
-    outv = next((k for k in svars if k.upper() == outn), None)
-    clv = next((k for k in svars if k.upper() == cln), None)
-    o2 = st.env.lookup(outv) if outv else Const("")
-    c2 = st.env.lookup(clv) if clv else Const("")
-    res = []
-    for path, leaf in leaves(lift(Seq("tuple", [o2, c2]))):
-        res.append((_path_facts(path), leaf.items[0], leaf.items[1]))
-    return f, lp, res, outn, cln
+    M = _model(ctx)
+    return M.f, M.lp, [(facts, o, c) for path, facts, o, c in M.leaves], M.OUTN, M.CLN
 
 
 def _accent_parts(v):
@@ -362,7 +433,8 @@ def wrap(ctx, R):
                 kinds["precomposed"] += 1
                 want_arg = [("hole", "T[{int(%s[0], 16)|chr}]" % D, "%s")]
                 req = [("cmp(eq, len(%s), 2)" % D, True), ("truth(%s[0].startswith('<'))" % D, False), ("cmp(in, int(%s[1], 16), ACCENTS)" % D, True)]
-                ok = argk == want_arg and all(r in facts for r in req)
+                want_arg2 = [("hole", "int(%s[0], 16)" % D, "chr")]  # the same string with the nested template spliced
+                ok = argk in (want_arg, want_arg2) and all(r in facts for r in req)
                 R.check(ok, "C19.WRAP", U + "|precomposed: " + tag, where(f, lp), "accents[second code point] applied to chr(first code point) of this character's canonical two-token decomposition", "a precomposed character is rewritten as \\%s{%s} under [%s]: expected accents[int(d[1],16)] applied to chr(int(d[0],16)) of its own decomposition d, only when d has exactly two tokens, no <tag>, and the mark is in the table" % (cmd, argk, tag))
             else:
                 R.bad("C19.WRAP", U + "|command " + cmd[:60], where(f, lp), "an accent command is looked up by `%s`: neither this character's code nor the second code point of its own decomposition" % cmd)
@@ -386,10 +458,7 @@ def wrap(ctx, R):
 def table(ctx, R):
     P = ctx.P
     f = P.func(U)
-    tbl = None
-    for nd in ast.walk(f.node):
-        if isinstance(nd, ast.Dict) and nd.keys and all(isinstance(k, ast.Constant) and isinstance(k.value, int) for k in nd.keys):
-            tbl = nd
+    tbl, _tname, _tglobal = _find_table(P, f)
     if tbl is None:
         R.bad("C19.TABLE", U + "|accent table", where(f), "no literal accent table (code point -> command) in uni2tex")
         return
